@@ -59,17 +59,7 @@ func (c *Calcium) doCreateWorkloads(ctx context.Context, opts *types.DeployOptio
 	)
 
 	_ = c.pool.Invoke(func() {
-		defer func() {
-			cctx, cancel := context.WithTimeout(utils.NewInheritCtx(ctx), c.config.GlobalTimeout)
-			for nodename := range deployMap {
-				processing := opts.GetProcessing(nodename)
-				if err := c.store.DeleteProcessing(cctx, processing); err != nil {
-					logger.Errorf(ctx, err, "delete processing failed for %s", nodename)
-				}
-			}
-			close(ch)
-			cancel()
-		}()
+		defer close(ch)
 
 		var resourceCommit wal.Commit
 		defer func() {
@@ -82,8 +72,19 @@ func (c *Calcium) doCreateWorkloads(ctx context.Context, opts *types.DeployOptio
 
 		var processingCommits map[string]wal.Commit
 		defer func() {
+			// delete the processing markers first and commit their wal events afterwards:
+			// once an event is committed, nothing would clean up a marker that is still there
+			cctx, cancel := context.WithTimeout(utils.NewInheritCtx(ctx), c.config.GlobalTimeout)
+			defer cancel()
+			for nodename := range deployMap {
+				processing := opts.GetProcessing(nodename)
+				if err := c.store.DeleteProcessing(cctx, processing); err != nil {
+					logger.Errorf(ctx, err, "delete processing failed for %s", nodename)
+					delete(processingCommits, nodename)
+				}
+			}
 			for nodename := range processingCommits {
-				if commit, ok := processingCommits[nodename]; ok {
+				if commit, ok := processingCommits[nodename]; ok && commit != nil {
 					if err := commit(); err != nil {
 						logger.Errorf(ctx, err, "commit wal failed: %s, %s", eventProcessingCreated, nodename)
 					}
